@@ -50,7 +50,10 @@ class C09(Prop):
         return st.one_of(api, api, api, st.fixed_dictionaries({"reader": rd, "via_clone": st.booleans()}))
 
     def fixed_cases(self, tier):
-        return gen_ir.example_cases(tier)
+        # (the colliding-name recipes have "/" in instance names: outside flatten's naming domain)
+        stress = [dict(r, policy=pol, via_clone=False) for k, r in sorted(gen_ir.stress_recipes().items())
+                  if not k.startswith("colliding") for pol in ("DEFAULT", "EDIF")]
+        return stress + gen_ir.example_cases(tier)
 
     def run(self, case):
         import spydrnet.uniquify as U
